@@ -981,6 +981,10 @@ class C08(Prop):
             doc, steps = gens.nested_arrays_family(g)
             for k in range(1, len(steps)):
                 items.append((doc, steps[:k], steps[k:], []))
+        for i in range(n // 8):
+            doc, steps = gens.allwild_family(g)
+            for k in range(1, len(steps)):
+                items.append((doc, steps[:k], steps[k:], []))
         corpus = load_corpus(self.id, ctx.root) if seed_offset == 0 else []
         # now and then the path is written without its leading `$` (a bracket or a bare name may start a path)
         nodollar = [r.random() < 0.12 for _ in items]
@@ -2058,7 +2062,7 @@ class C19(Prop):
 class C20(EvalProp):
     id = 'C20'
     what = 'behaviour on non-JSON Go values'
-    rule = ('generator documents with a random subset of leaves replaced by values of 26 non-JSON Go types (ints, structs, '
+    rule = ('generator documents with a random subset of leaves replaced by values of 27 non-JSON Go types (ints, structs, '
             'struct{}, typed maps/slices, pointers, typed nils, funcs, channels, arrays, NaN, time.Time, error, Accessor), all '
             'parsable generated paths incl. existence tests, literal/ordering/regex/deep-equal comparisons and functions; '
             'results, errors (found type) and call logs compared with the model; any panic / undocumented error is a '
